@@ -405,12 +405,24 @@ func (cc *Conn) doInternal(req *pool.Message) (*pool.Message, error) {
 		return nil, errors.New("invalid token")
 	}
 
+	// fix the type and message ID now (writeMessage would do the same a moment later), so that the
+	// response handler below knows which pending confirmable message the response answers
+	req.UpsertType(message.Confirmable)
+	req.UpsertMessageID(cc.GetMessageID())
+	reqMessageID := req.MessageID()
 	respChan := make(chan *pool.Message, 1)
-	if _, loaded := cc.tokenHandlerContainer.LoadOrStore(token.Hash(), func(_ *responsewriter.ResponseWriter[*Conn], r *pool.Message) {
+	if _, loaded := cc.tokenHandlerContainer.LoadOrStore(token.Hash(), func(w *responsewriter.ResponseWriter[*Conn], r *pool.Message) {
 		r.Hijack()
 		select {
 		case respChan <- r:
 		default:
+		}
+		// A response may arrive without the acknowledgement having been seen (the ACK was lost, or
+		// the separate response overtook it). It confirms that the request was received: stop
+		// waiting for the ACK and stop retransmitting (RFC 7252 section 5.2.2).
+		if elem, ok := cc.midHandlerContainer.LoadAndDelete(reqMessageID); ok {
+			elem.ReleaseMessage(cc)
+			elem.handler(w, r)
 		}
 	}); loaded {
 		return nil, fmt.Errorf("cannot add token(%v) handler: %w", token, coapErrors.ErrKeyAlreadyExists)
